@@ -70,6 +70,7 @@ func (c *PContacts) Reset() {
 
 // Init initializes the contact values from an array of parsed values.
 func (c *PContacts) Init(valbuf []PFromBody) {
+	c.Reset() // a used list must restart from scratch (counters, state)
 	c.Vals = valbuf
 }
 
